@@ -55,6 +55,8 @@ SET_HEAVY = {
     "unused_functions": "".join("def unused_%s():\n    return %d\n" % (c, i) for i, c in enumerate("fbdace")) + "print(0)\n",
     "dict_set_literals": "a = {3, 1, 2, 1}\nb = {'k': 1, 'j': 2, 'k': 3}\nprint(sorted(a), b)\n",
     "class_members": "class K:\n    bAttr = 1\n    aAttr = 2\n    def zMeth(self):\n        return 1\n    def aMeth(self):\n        return 2\nprint(K().aMeth())\n",
+    "missing_typing_names": "def f():\n    return Sequence, Mapping, Iterable, Callable, Optional, Tuple\nprint(f())\n",
+    "star_import_many_names": "from os.path import *\nprint(basename('a/b'), dirname('a/b'), join('a', 'b'), sep, splitext('a.b'), exists('zz'))\n",
     "preserve_like": "def aaa():\n    return 1\ndef bbb():\n    return 1\ndef ccc():\n    return 1\nprint(aaa(), bbb(), ccc())\n",
 }
 
